@@ -53,7 +53,7 @@ TStart ==
   /\ res' = [p \in Procs |-> None] /\ rfd' = [p \in Procs |-> 0]
   /\ wfd' = [p \in Procs |-> 0] /\ woff' = [p \in Procs |-> 0]
   /\ calls' = 0 /\ crashes' = 0
-  /\ dir' = (Rec.dir = 1) /\ dseen' = [p \in Procs |-> FALSE]
+  /\ dir' = (Rec.dir = 1) /\ dseen' = [p \in Procs |-> FALSE] /\ memo' = [p \in Procs |-> [k \in Keys |-> None]]
   /\ bad' = FALSE /\ targ' = [p \in Procs |-> None]
   /\ Consume
 
@@ -93,6 +93,7 @@ Act(r) ==
          /\ rfd' = [rfd EXCEPT ![p] = 0] /\ wfd' = [wfd EXCEPT ![p] = 0]
          /\ crashes' = crashes + 1
          /\ link' = [link EXCEPT ![Tmp(p)] = 0]
+         /\ memo' = [memo EXCEPT ![p] = [k \in Keys |-> None]]
          /\ UNCHANGED <<nino, arg, woff, calls, dir, dseen>>
     [] OTHER -> FALSE
 
